@@ -10,7 +10,8 @@ is), the element-wise logarithm `np.log` is an oracle constrained by the explici
 * `entry_nan` … `entry_real`: the decision logic of one entry is the model's `Timescales.codeKind` — NaN exactly where the model says NaN,
   otherwise the complex quotient `-τ / log λ` whose real part is positive; with `Props/C10.lean` (`code_meets_requirement`) this is what the
   property requires (`entry_meets_requirement`);
-* `its_api_*`: the public function — the two argument checks, one row per lag time in the order of the argument (real parts), errors.
+* `its_api_*`: the public function — the two argument checks, the `ValueError` of `np.zeros` for a negative `ntimescales`, one row per lag
+  time in the order of the argument (real parts), errors.
 
 Helper lemmas and the definitions `LogContract`, `entry`, `apiRow`: `Refine/ItsLemmas.lean` (same namespace).
 -/
@@ -243,22 +244,26 @@ theorem its_api_rejects_reversible (est : Int → Py ((List (List Rat)) × (List
     Gen.MsmIts.implied_timescales_n est log eig argsort nstates lags nts true = .error .notImplemented := by
   rw [api_unfold, if_neg (by rw [(all_pos_iff lags).mpr hpos]; exact Bool.noConfusion), if_pos rfl]
 
-/-- **The accepted case, for every `ntimescales`.**  All lag times `≥ 1`, `reversible = False`.  The function is this program: go through
-    the lag times IN THE ORDER OF THE ARGUMENT (one row per member, also for repeated lag times); for the lag time `τ` call the estimator,
-    call `_implied_timescales` with its matrix, `τ` and `ntimescales`; a row whose length differs from the row length of the zero-initialised
-    array is a `ValueError`, otherwise the row of the result is the REAL PART of that row.  The first failing step of the first failing lag
-    time gives the error.  (The array has rows of length `ntimescales.toNat`; see `its_api_refines` for `0 ≤ ntimescales`.) -/
-theorem its_api_refines_general (est : Int → Py ((List (List Rat)) × (List Int))) (log : List Cx → Py (List Cx))
+/-- **A negative `ntimescales` is a `ValueError`** (numpy's "negative dimensions are not allowed" of `np.zeros((len(lagtimes), ntimescales))`).
+    All lag times `≥ 1`, `reversible = False`, `ntimescales < 0`: the function raises `ValueError` — whatever the oracles are (none is
+    consulted) and also for the empty lag-time list. -/
+theorem its_api_rejects_negative_ntimescales (est : Int → Py ((List (List Rat)) × (List Int))) (log : List Cx → Py (List Cx))
     (eig : List (List Rat) → Py (List Cx × List (List Cx))) (argsort : List Cx → Py (List Int))
-    (nstates : Int) (lags : List Int) (nts : Int) (hpos : ∀ l ∈ lags, 1 ≤ l) :
-    Gen.MsmIts.implied_timescales_n est log eig argsort nstates lags nts false =
-      lags.mapM (fun τ => do
-        let m ← est τ
-        let row ← Gen.MsmIts.implied_timescales log eig argsort m.1 τ nts
-        if row.length = nts.toNat then pure (row.map cxReal) else throw Err.value) := by
+    (nstates : Int) (lags : List Int) (nts : Int) (hpos : ∀ l ∈ lags, 1 ≤ l) (hnts : nts < 0) :
+    Gen.MsmIts.implied_timescales_n est log eig argsort nstates lags nts false = .error .value := by
   rw [api_unfold, if_neg (by rw [(all_pos_iff lags).mpr hpos]; exact Bool.noConfusion), if_neg Bool.noConfusion,
-    apiLoop_eq]
-  rfl
+    if_pos hnts]
+
+/-- **The accepted case in terms of `apiRow`.**  All lag times `≥ 1`, `reversible = False`, `0 ≤ ntimescales`: the function is `mapM` of
+    `apiRow` (estimate, `_implied_timescales`, `ValueError` unless the row has `ntimescales.toNat` entries, real part) over the lag times in
+    the order of the argument. -/
+theorem its_api_refines_apiRow (est : Int → Py ((List (List Rat)) × (List Int))) (log : List Cx → Py (List Cx))
+    (eig : List (List Rat) → Py (List Cx × List (List Cx))) (argsort : List Cx → Py (List Int))
+    (nstates : Int) (lags : List Int) (nts : Int) (hpos : ∀ l ∈ lags, 1 ≤ l) (hnts : 0 ≤ nts) :
+    Gen.MsmIts.implied_timescales_n est log eig argsort nstates lags nts false =
+      lags.mapM (apiRow est log eig argsort nts) := by
+  rw [api_unfold, if_neg (by rw [(all_pos_iff lags).mpr hpos]; exact Bool.noConfusion), if_neg Bool.noConfusion,
+    if_neg (by omega), apiLoop_eq]
 
 /-- **The accepted case.**  All lag times `≥ 1`, `reversible = False`, `0 ≤ ntimescales`: row `i` of the result is the REAL PART of
     `_implied_timescales(estimate(lags[i]).1, lags[i], ntimescales)` — in the order of the argument, one row per lag time (also for repeated
@@ -272,9 +277,10 @@ theorem its_api_refines (est : Int → Py ((List (List Rat)) × (List Int))) (lo
         let m ← est τ
         let row ← Gen.MsmIts.implied_timescales log eig argsort m.1 τ nts
         if (row.length : Int) = nts then pure (row.map cxReal) else throw Err.value) := by
-  rw [its_api_refines_general est log eig argsort nstates lags nts hpos]
+  rw [its_api_refines_apiRow est log eig argsort nstates lags nts hpos hnts]
   congr 1
   funext τ
+  unfold apiRow
   cases est τ with
   | error e => rfl
   | ok m =>
@@ -287,11 +293,28 @@ theorem its_api_refines (est : Int → Py ((List (List Rat)) × (List Int))) (lo
       · rw [if_pos h, if_pos (by omega)]
       · rw [if_neg h, if_neg (by omega)]
 
-/-- **The empty lag-time list** gives the empty array (no oracle is consulted), unless `reversible = True`. -/
+/-- **The function for every `ntimescales`** (all lag times `≥ 1`, `reversible = False`): a negative `ntimescales` is a `ValueError`,
+    otherwise the program of `its_api_refines`. -/
+theorem its_api_refines_general (est : Int → Py ((List (List Rat)) × (List Int))) (log : List Cx → Py (List Cx))
+    (eig : List (List Rat) → Py (List Cx × List (List Cx))) (argsort : List Cx → Py (List Int))
+    (nstates : Int) (lags : List Int) (nts : Int) (hpos : ∀ l ∈ lags, 1 ≤ l) :
+    Gen.MsmIts.implied_timescales_n est log eig argsort nstates lags nts false =
+      if nts < 0 then .error .value else
+      lags.mapM (fun τ => do
+        let m ← est τ
+        let row ← Gen.MsmIts.implied_timescales log eig argsort m.1 τ nts
+        if (row.length : Int) = nts then pure (row.map cxReal) else throw Err.value) := by
+  by_cases hnts : nts < 0
+  · rw [if_pos hnts, its_api_rejects_negative_ntimescales est log eig argsort nstates lags nts hpos hnts]
+  · rw [if_neg hnts, its_api_refines est log eig argsort nstates lags nts hpos (by omega)]
+
+/-- **The empty lag-time list** (`reversible = False`) gives the empty array for `0 ≤ ntimescales` and a `ValueError` for a negative
+    `ntimescales`; no oracle is consulted. -/
 theorem its_api_empty (est : Int → Py ((List (List Rat)) × (List Int))) (log : List Cx → Py (List Cx))
     (eig : List (List Rat) → Py (List Cx × List (List Cx))) (argsort : List Cx → Py (List Int))
     (nstates : Int) (nts : Int) :
-    Gen.MsmIts.implied_timescales_n est log eig argsort nstates [] nts false = .ok [] := by
+    Gen.MsmIts.implied_timescales_n est log eig argsort nstates [] nts false =
+      if nts < 0 then .error .value else .ok [] := by
   rw [its_api_refines_general est log eig argsort nstates [] nts (fun l hl => absurd hl List.not_mem_nil)]
   rfl
 
@@ -302,14 +325,14 @@ theorem its_api_default_eq (est : Int → Py ((List (List Rat)) × (List Int))) 
     Gen.MsmIts.implied_timescales_default est log eig argsort nstates lags rev =
       Gen.MsmIts.implied_timescales_n est log eig argsort nstates lags (nstates - 1) rev := rfl
 
-/-- **Shape and rows of a returned result.**  Whenever the function returns a result (then necessarily all lag times are `≥ 1` and
-    `reversible = False`) it has exactly one row per member of the lag-time list, every row has `ntimescales.toNat` entries, and row `i` is the
+/-- **Shape and rows of a returned result.**  Whenever the function returns a result (then necessarily all lag times are `≥ 1`,
+    `reversible = False` and `0 ≤ ntimescales`) it has exactly one row per member of the lag-time list, every row has `ntimescales.toNat` entries, and row `i` is the
     real part of a row `_implied_timescales(estimate(lags[i]).1, lags[i], ntimescales)` that was returned without error. -/
 theorem its_api_rows (est : Int → Py ((List (List Rat)) × (List Int))) (log : List Cx → Py (List Cx))
     (eig : List (List Rat) → Py (List Cx × List (List Cx))) (argsort : List Cx → Py (List Int))
     (nstates : Int) (lags : List Int) (nts : Int) (rev : Bool) (res : List (List Cx))
     (h : Gen.MsmIts.implied_timescales_n est log eig argsort nstates lags nts rev = .ok res) :
-    (∀ l ∈ lags, 1 ≤ l) ∧ rev = false ∧ res.length = lags.length ∧
+    (∀ l ∈ lags, 1 ≤ l) ∧ rev = false ∧ 0 ≤ nts ∧ res.length = lags.length ∧
       ∀ (i : Nat) (h1 : i < lags.length) (h2 : i < res.length), ∃ m row,
         est lags[i] = .ok m ∧ Gen.MsmIts.implied_timescales log eig argsort m.1 lags[i] nts = .ok row ∧
         row.length = nts.toNat ∧ res[i] = row.map cxReal := by
@@ -321,9 +344,12 @@ theorem its_api_rows (est : Int → Py ((List (List Rat)) × (List Int))) (log :
     cases rev with
     | true => rw [if_pos rfl] at h; cases h
     | false =>
-      rw [if_neg Bool.noConfusion, apiLoop_eq] at h
+      rw [if_neg Bool.noConfusion] at h
+      by_cases hnts : nts < 0
+      · rw [if_pos hnts] at h; cases h
+      rw [if_neg hnts, apiLoop_eq] at h
       obtain ⟨hlen, hget⟩ := mapM_ok_get _ _ _ h
-      refine ⟨hpos, rfl, hlen, ?_⟩
+      refine ⟨hpos, rfl, by omega, hlen, ?_⟩
       intro i h1 h2
       have hi := hget i h1 h2
       unfold apiRow at hi
@@ -349,7 +375,7 @@ theorem its_api_entries (est : Int → Py ((List (List Rat)) × (List Int))) (lo
     (nstates : Int) (lags : List Int) (nts : Int) (rev : Bool) (res : List (List Cx))
     (h : Gen.MsmIts.implied_timescales_n est log eig argsort nstates lags nts rev = .ok res) :
     ∀ r ∈ res, ∀ c ∈ r, c = none ∨ ∃ t : Rat, c = some (t, 0) ∧ 0 < t := by
-  obtain ⟨_, _, hlen, hrows⟩ := its_api_rows est log eig argsort nstates lags nts rev res h
+  obtain ⟨_, _, _, hlen, hrows⟩ := its_api_rows est log eig argsort nstates lags nts rev res h
   intro r hr c hc
   obtain ⟨i, hi, rfl⟩ := List.getElem_of_mem hr
   obtain ⟨m, row, _, hrow, _, hres⟩ := hrows i (by omega) hi
@@ -359,21 +385,20 @@ theorem its_api_entries (est : Int → Py ((List (List Rat)) × (List Int))) (lo
   · exact Or.inl rfl
   · exact Or.inr ⟨t.1, rfl, ht⟩
 
-/-- **Which error is raised.**  All lag times `≥ 1`, `reversible = False`.  If the lag-time list is `pre ++ τ₀ :: rest`, every lag time of
+/-- **Which error is raised.**  All lag times `≥ 1`, `reversible = False`, `0 ≤ ntimescales`.  If the lag-time list is `pre ++ τ₀ :: rest`, every lag time of
     `pre` yields an accepted row, and the lag time `τ₀` fails with `e` (the estimator fails, or `_implied_timescales` fails, or — `e` =
     `ValueError` — its row has the wrong length), the function raises `e`; the lag times of `rest` are not tried. -/
 theorem its_api_first_error (est : Int → Py ((List (List Rat)) × (List Int))) (log : List Cx → Py (List Cx))
     (eig : List (List Rat) → Py (List Cx × List (List Cx))) (argsort : List Cx → Py (List Int))
     (nstates : Int) (nts : Int) (pre : List Int) (τ0 : Int) (rest : List Int) (e : Err)
-    (hpos : ∀ l ∈ pre ++ τ0 :: rest, 1 ≤ l)
+    (hpos : ∀ l ∈ pre ++ τ0 :: rest, 1 ≤ l) (hnts : 0 ≤ nts)
     (hpre : ∀ τ ∈ pre, ∃ v, apiRow est log eig argsort nts τ = .ok v)
     (h0 : apiRow est log eig argsort nts τ0 = .error e) :
     Gen.MsmIts.implied_timescales_n est log eig argsort nstates (pre ++ τ0 :: rest) nts false = .error e := by
-  rw [api_unfold, if_neg (by rw [(all_pos_iff _).mpr hpos]; exact Bool.noConfusion), if_neg Bool.noConfusion,
-    apiLoop_eq]
+  rw [its_api_refines_apiRow est log eig argsort nstates _ nts hpos hnts]
   exact mapM_first_error _ e pre τ0 rest hpre h0
 
-/-- **The full result in terms of `entry`.**  All lag times `≥ 1`, `reversible = False`, the logarithm satisfies its contract; for every
+/-- **The full result in terms of `entry`.**  All lag times `≥ 1`, `reversible = False`, `0 ≤ ntimescales`, the logarithm satisfies its contract; for every
     listed lag time `τ` the estimator returns a matrix `T τ` and the eigen-solver wrapper returns for it `ntimescales + 1` eigenvalues
     `evs τ`.  Then the function raises nothing, and row `i` of the result holds, for the eigenvalues of `T lags[i]` but the first, the real
     parts of the entries `entry lags[i] L ev` — NaN or `Re(-τ / log ev) > 0` according to `Timescales.codeKind` (see `entry_kind`). -/
@@ -381,14 +406,13 @@ theorem its_api_value (est : Int → Py ((List (List Rat)) × (List Int))) {log 
     (hlog : LogContract log L)
     (eig : List (List Rat) → Py (List Cx × List (List Cx))) (argsort : List Cx → Py (List Int))
     (nstates : Int) (lags : List Int) (nts : Int) (T : Int → List (List Rat)) (evs : Int → List Cx)
-    (hpos : ∀ l ∈ lags, 1 ≤ l)
+    (hpos : ∀ l ∈ lags, 1 ≤ l) (hnts : 0 ≤ nts)
     (hest : ∀ τ ∈ lags, ∃ sts, est τ = .ok (T τ, sts))
     (hev : ∀ τ ∈ lags, Gen.MsmLinalg.left_eigenvalues_n eig argsort (T τ) (nts + 1) = .ok (evs τ))
     (hlen : ∀ τ ∈ lags, (evs τ).length = nts.toNat + 1) :
     Gen.MsmIts.implied_timescales_n est log eig argsort nstates lags nts false =
       .ok (lags.map (fun τ => ((evs τ).drop 1).map (fun ev => cxReal (entry τ L ev)))) := by
-  rw [api_unfold, if_neg (by rw [(all_pos_iff lags).mpr hpos]; exact Bool.noConfusion), if_neg Bool.noConfusion,
-    apiLoop_eq]
+  rw [its_api_refines_apiRow est log eig argsort nstates lags nts hpos hnts]
   apply mapM_of_ok
   intro τ hτ
   obtain ⟨sts, hs⟩ := hest τ hτ
@@ -533,7 +557,7 @@ example : Gen.MsmIts.implied_timescales_n exEst exLog exEig exArgsort 2 [5, 1, 2
     (fun τ => if τ = 2 then exB else if τ = 3 then exC else exA)
     (fun τ => if τ = 2 then [some (1, 0), some (-1/2, 0)] else if τ = 3 then [some (1, 0), some (0, 1)]
       else [some (1, 0), some (1/4, 0)])
-    (by decide)
+    (by decide) (by decide)
     (by intro τ hτ
         simp only [List.mem_cons, List.not_mem_nil, or_false] at hτ
         rcases hτ with rfl | rfl | rfl | rfl | rfl
@@ -553,10 +577,19 @@ example : Gen.MsmIts.implied_timescales_n exEst exLog exEig exArgsort 2 [5, -3, 
   its_api_rejects_nonpositive_lag _ _ _ _ _ _ _ _ (-3) (by decide) (by decide)
 example : Gen.MsmIts.implied_timescales_n exEst exLog exEig exArgsort 2 [5, 1, 2] 1 true = .error .notImplemented :=
   its_api_rejects_reversible _ _ _ _ _ _ _ (by decide)
-example : Gen.MsmIts.implied_timescales_n exEst exLog exEig exArgsort 2 [] 1 false = .ok [] := its_api_empty _ _ _ _ _ _
+example : Gen.MsmIts.implied_timescales_n exEst exLog exEig exArgsort 2 [] 1 false = .ok [] := by
+  rw [its_api_empty]; rfl
+/-- a negative `ntimescales` is a `ValueError` (also for the empty list, and with the default `nstates - 1` for `nstates = 0`) -/
+example : Gen.MsmIts.implied_timescales_n exEst exLog exEig exArgsort 2 [5, 1] (-1) false = .error .value :=
+  its_api_rejects_negative_ntimescales _ _ _ _ _ _ _ (by decide) (by decide)
+example : Gen.MsmIts.implied_timescales_n exEst exLog exEig exArgsort 2 [] (-1) false = .error .value := by
+  rw [its_api_empty]; rfl
+example : Gen.MsmIts.implied_timescales_default exEst exLog exEig exArgsort 0 [5, 1] false = .error .value := by decide +kernel
+/-- `ntimescales = 0` is accepted: rows without entries -/
+example : Gen.MsmIts.implied_timescales_n exEst exLog exEig exArgsort 2 [5, 1] 0 false = .ok [[], []] := by decide +kernel
 /-- error order: the estimator does not know lag time 4 — `LagtimeError`; the lag times after it are not tried -/
 example : Gen.MsmIts.implied_timescales_n exEst exLog exEig exArgsort 2 ([5, 1] ++ 4 :: [3, 1]) 1 false = .error .lagtime :=
-  its_api_first_error _ _ _ _ 2 1 [5, 1] 4 [3, 1] .lagtime (by decide)
+  its_api_first_error _ _ _ _ 2 1 [5, 1] 4 [3, 1] .lagtime (by decide) (by decide)
     (by intro τ hτ
         simp only [List.mem_cons, List.not_mem_nil, or_false] at hτ
         rcases hτ with rfl | rfl
